@@ -736,7 +736,8 @@ class Generator:
                     'finished', 'refinished', 'deleted')] or insts
                 ages = [exp_t % DAY + 1.0, exp_t % DAY + 60.0, exp_t / 2.0,
                         exp_t - 3600.0, exp_t - 60.0, exp_t - 1.0]
-                for n in range(par['trace_batch'] + rng.randint(1, 4)):
+                for n in range(min(par['trace_batch'], 12) +
+                               rng.randint(1, 4)):
                     inst, host, _role = rng.choice(gone)
                     yield {'op': 'event', 'inst': inst, 'host': host,
                            'when': _stamp(now - rng.choice(ages) - n * 0.01),
